@@ -1,4 +1,5 @@
 import TlsProofs.Negotiate
+import TlsProofs.Compat
 /-
   C03 — both ends of a completed handshake agree on everything, within both policies.
 
@@ -491,5 +492,134 @@ theorem server_versions_order_decides :
     negotiate dflt { dflt with versions := [3, 4, 2, 1] } certClient (certServer rsaCred)
       = .alert .client "illegal_parameter" := by
   constructor <;> decide +kernel
+
+
+/-! ### 5. compatible settings complete (C03 / C19 second half: "any two endpoints configured from
+  validated settings that share a protocol version and, for it, a cipher suite, group and signature scheme
+  usable with the server's credentials complete a handshake")
+
+  `compatible cs ss cc sc` (TlsModel/Compat.lean) is written over sets, never over the library's choices:
+    * `commonVersion`: the highest version inside both [minVersion, maxVersion] ranges that the ClientHello
+      can express (listed in both `versions` when the client offers TLS 1.3);
+    * `commonSuites` non-empty: suites both name lists admit, defined for that version, usable with the
+      server's key; and EVERY one of them can be carried through (`suiteWorks`: a common curve for ECDHE,
+      acceptable primes for DHE, a common TLS 1.3 group directly or through HelloRetryRequest, a key able
+      to sign the legacy ServerKeyExchange below TLS 1.2) — "the server is free to pick any of them";
+    * `sigShared`: a scheme the server can produce with its key that the client offered, and every such
+      scheme is accepted by the client for this chain;
+    * `certAccepted`, `serverCurveListed`: the server's key inside the client's limits / curves;
+    * `extensionsOk`: required EMS satisfiable, a common ALPN protocol when both have lists (TLS ≤ 1.2).
+  Hypotheses of the theorem: `wf` (facts `validate()` establishes + default order of `versions`),
+  `plainCert` (certificate handshake, no client authentication, no external PSK, no SNI mismatch),
+  `clientHelloSane` (the client's own ClientHello passes the server's structural TLS 1.3 checks: follows
+  from validate() for duplicate-free keyShares; decidable, checked on every generated case).
+
+  FULL STATEMENT under the weaker reading (`compatibleSome`: SOME common suite works): does not hold —
+  the server takes its first preference among the common suites and does not look for one that works
+  (`some_working_suite_is_not_enough`).  Further regions the premise has to exclude, each with a
+  counterexample below: no fallback to a lower common version (`no_version_fallback`); the TLS 1.2
+  signature lists are applied when TLS 1.0/1.1 is negotiated (`tls11_applies_signature_lists`) and to RSA
+  key transport, which signs nothing (`rsa_key_transport_needs_signature_scheme`).  In the other
+  direction TLS 1.3 completes over a group RFC 8446 forbids (`tls13_completes_over_secp256k1`).
+-/
+theorem compatible_completes (cs ss : Settings) (cc : ClientCfg) (sc : ServerCfg)
+    (hwc : cs.wf = true) (hws : ss.wf = true) (hplain : plainCert cs cc sc = true)
+    (hsane : clientHelloSane cs cc = true) (h : compatible cs ss cc sc = true) :
+    ∃ p, negotiate cs ss cc sc = .ok p := by
+  cases hv : commonVersion cs ss with
+  | none => unfold compatible at h; rw [hv] at h; cases h
+  | some v =>
+    by_cases hv3 : v ≤ 3
+    · exact compatible_completes_le12 hwc hws hplain hsane hv hv3 h
+    · exact compatible_completes_13 hwc hws hplain hsane hv (by omega) h
+
+-- non-vacuity: the default settings are compatible (TLS 1.3) …
+example : dflt.wf = true ∧ plainCert dflt certClient (certServer rsaCred) = true ∧
+    clientHelloSane dflt certClient = true ∧ compatible dflt dflt certClient (certServer rsaCred) = true ∧
+    commonVersion dflt dflt = some 4 := by decide +kernel
+-- … so are a TLS 1.0-only server with an ECDSA key and the default client
+example : compatible dflt { dflt with maxVersion := 1, versions := [3, 2, 1] } certClient (certServer ecdsaCred) = true ∧
+    ({ dflt with maxVersion := 1, versions := [3, 2, 1] } : Settings).wf = true ∧
+    commonVersion dflt { dflt with maxVersion := 1, versions := [3, 2, 1] } = some 1 := by decide +kernel
+-- … and disjoint cipher lists are not
+example : compatible { dflt with cipherNames := ["aes128gcm"] } { dflt with cipherNames := ["aes256gcm"] }
+    certClient (certServer rsaCred) = false := by decide +kernel
+
+/-- a completed handshake used a version both ends have in common -/
+theorem completes_implies_common_version (cs ss : Settings) (cc : ClientCfg) (sc : ServerCfg) (p : Params)
+    (hwc : cs.wf = true) (hws : ss.wf = true) (h : negotiate cs ss cc sc = .ok p) :
+    versionCommon cs ss p.version = true ∧ ∃ v, commonVersion cs ss = some v ∧ p.version ≤ v := by
+  obtain ⟨c1, c2, c3, c4, c5, c6, _⟩ := wf_spec hwc
+  obtain ⟨s1, s2, s3, s4, s5, s6, _⟩ := wf_spec hws
+  obtain ⟨r1, r2, r3, r4⟩ := version_inside_both_ranges cs ss cc sc p c3 s1 s2 h
+  have hsel := selected_in_offer_and_policy_partial cs ss cc sc p h
+  simp only at hsel
+  obtain ⟨_, _, hext, _⟩ := hsel
+  have hcom : versionCommon cs ss p.version = true := by
+    apply versionCommon_intro r1 r2 r3 r4
+    intro h13
+    have hsv := offer_supportedVersions cs cc
+    rw [if_pos h13] at hsv
+    obtain ⟨m1, m2, _, _⟩ := hext _ hsv
+    exact ⟨m1, m2⟩
+  refine ⟨hcom, ?_⟩
+  cases hv : commonVersion cs ss with
+  | none =>
+    exfalso
+    unfold commonVersion at hv
+    have := List.find?_eq_none.mp hv p.version (by
+      have : p.version ≤ 4 := by omega
+      simp only [List.mem_cons, List.not_mem_nil, or_false]; omega)
+    exact this hcom
+  | some v => exact ⟨v, rfl, (commonVersion_spec hv).2.2 _ (by omega) hcom⟩
+
+/-- SOME working common suite is not enough: with an RSA key, DHE_RSA and RSA key transport both enabled,
+    the server prefers DHE_RSA and sends its 1536-bit prime, which a client demanding 2048-bit keys refuses;
+    TLS_RSA_WITH_* would have worked -/
+theorem some_working_suite_is_not_enough :
+    compatibleSome { dflt with maxVersion := 3, versions := [3, 2, 1], keyExchangeNames := ["dhe_rsa", "rsa"],
+                               dhGroups := [], minKeySize := 2048 }
+                   { dflt with maxVersion := 3, versions := [3, 2, 1], keyExchangeNames := ["dhe_rsa", "rsa"],
+                               dhParamBits := 1536 } certClient (certServer rsaCred) = true ∧
+    negotiate { dflt with maxVersion := 3, versions := [3, 2, 1], keyExchangeNames := ["dhe_rsa", "rsa"],
+                          dhGroups := [], minKeySize := 2048 }
+              { dflt with maxVersion := 3, versions := [3, 2, 1], keyExchangeNames := ["dhe_rsa", "rsa"],
+                          dhParamBits := 1536 } certClient (certServer rsaCred)
+      = .alert .client "insufficient_security" := by
+  constructor <;> decide +kernel
+
+/-- no fallback: both ends enable TLS 1.2 and TLS 1.3, the client only CBC ciphers (no TLS 1.3 suite):
+    the handshake fails at TLS 1.3 although the same pair capped at TLS 1.2 completes -/
+theorem no_version_fallback :
+    negotiate { dflt with cipherNames := ["aes128"] } dflt certClient (certServer rsaCred)
+      = .alert .server "insufficient_security" ∧
+    okWith (negotiate { dflt with cipherNames := ["aes128"], maxVersion := 3, versions := [3, 2, 1] } dflt
+              certClient (certServer rsaCred)) (fun p => p.version == 3) = true := by
+  constructor <;> decide +kernel
+
+/-- the TLS 1.2 signature lists are applied although TLS 1.1 is negotiated (where the ServerKeyExchange
+    signature is fixed: MD5+SHA1 with RSA) -/
+theorem tls11_applies_signature_lists :
+    negotiate { dflt with rsaSigHashes := ["sha256"] }
+              { dflt with maxVersion := 2, versions := [3, 2, 1], rsaSigHashes := ["sha384"] }
+              certClient (certServer rsaCred) = .alert .server "handshake_failure" ∧
+    okWith (negotiate { dflt with rsaSigHashes := ["sha256"] }
+              { dflt with maxVersion := 2, versions := [3, 2, 1], rsaSigHashes := ["sha256"] }
+              certClient (certServer rsaCred)) (fun p => p.version == 2 && p.sigScheme == 0) = true := by
+  constructor <;> decide +kernel
+
+/-- RSA key transport signs nothing, yet disjoint signature lists stop it -/
+theorem rsa_key_transport_needs_signature_scheme :
+    negotiate { dflt with maxVersion := 3, versions := [3, 2, 1], keyExchangeNames := ["rsa"], rsaSigHashes := ["sha256"] }
+              { dflt with maxVersion := 3, versions := [3, 2, 1], keyExchangeNames := ["rsa"], rsaSigHashes := ["sha384"] }
+              certClient (certServer rsaCred) = .alert .server "handshake_failure" := by
+  decide +kernel
+
+/-- TLS 1.3 completes over secp256k1 (group 22, forbidden by RFC 8446 B.3.1.4) when both ends enable it -/
+theorem tls13_completes_over_secp256k1 :
+    okWith (negotiate { dflt with eccCurves := ["secp256k1"], keyShares := ["secp256k1"], dhGroups := [] }
+                      { dflt with eccCurves := ["secp256k1"], keyShares := ["secp256k1"], dhGroups := [] }
+                      certClient (certServer rsaCred)) (fun p => p.version == 4 && p.group == 22) = true := by
+  decide +kernel
 
 end Tls.Neg.C03
